@@ -11,6 +11,7 @@ import (
 	_ "verif/checks/c04"
 	_ "verif/checks/c05"
 	_ "verif/checks/c06"
+	_ "verif/checks/c07"
 	_ "verif/checks/c10"
 	_ "verif/checks/c11"
 	_ "verif/checks/c12"
